@@ -142,18 +142,18 @@ open Hub.Store in
 /-- non-vacuity / sanity on the store model: A -p-> B in two datasets, outgoing query with limit 1
 returns B once over both pages (the D3 input), and a removed reference is gone. -/
 example :
-    let a : Ent := ⟨1, false, [(5, 2)], "a"⟩
+    let a : Ent := ⟨1, false, [(5, 2)], "a", []⟩
     let db := storeBatch (storeBatch {} 2 10 [a]) 3 20 [a]
     let p1 := relatedOut db 1 0 99 1 [] none
     p1 = ([⟨5, 2, 3, 20⟩], none)
-    ∧ (relatedOut (storeBatch db 3 30 [⟨1, false, [], "b"⟩]) 1 0 99 0 [3] none).1 = [] := by decide
+    ∧ (relatedOut (storeBatch db 3 30 [⟨1, false, [], "b", []⟩]) 1 0 99 0 [3] none).1 = [] := by decide
 
 open Hub.Store in
 /-- known finding D4 (inverse scan): `S -p,q-> X`, then `S -q-> X`. The outgoing query from S
 returns q only, the inverse query from X returns p and q — incoming is not the transpose. -/
 theorem incoming_not_transpose :
-    let s1 : Ent := ⟨1, false, [(5, 2), (6, 2)], "a"⟩
-    let s2 : Ent := ⟨1, false, [(6, 2)], "b"⟩
+    let s1 : Ent := ⟨1, false, [(5, 2), (6, 2)], "a", []⟩
+    let s2 : Ent := ⟨1, false, [(6, 2)], "b", []⟩
     let db := storeBatch (storeBatch {} 7 10 [s1]) 7 20 [s2]
     ((relatedOut db 1 0 99 0 [] none).1.map fun r => r.pred) = [6]
     ∧ ((relatedIn db 2 0 99 0 [] none).1.map fun r => r.pred) = [5, 6] := by decide
